@@ -126,6 +126,15 @@ class SSETransport(Transport):
             # Wait for SSE connection to establish
             try:
                 await asyncio.wait_for(self._connected.wait(), timeout=self.timeout)
+
+                # The connection handler also signals readiness when it ends
+                # (HTTP error, connect failure, stream closed): without an
+                # announced message endpoint the connection is dead
+                if not self._message_url:
+                    raise RuntimeError(
+                        "SSE connection failed: server did not announce a message endpoint"
+                    )
+
                 logger.info(f"SSE connection established to {self.base_url}")
                 return self
 
